@@ -231,3 +231,46 @@ def _(v):
     v.prove("net_consumption_of_half_a_catalyst", c == dict(accumulated={"B"}, depleted={"A", "C"}, unaffected=set(), nonparticipating=set()), detail=repr(c))
     c = mk([Reaction({"A": Fr(1, 3)}, {"B": Fr(1, 4)}, checks=()), Reaction({"B": 0.25, "D": 1}, {"A": Fr(1, 3), "D": 1.0}, checks=())], ["A", "B", "D"]).categorize_substances()
     v.prove("fractions_below_one", c == dict(accumulated=set(), depleted=set(), unaffected={"D"}, nonparticipating=set()), detail=repr(c))
+
+
+@harness("C15", "definitions_on_written_systems", functions=["chempy.reactionsystem:ReactionSystem.per_substance_varied", "chempy.reactionsystem:ReactionSystem.concatenate", "chempy.reactionsystem:ReactionSystem.__eq__",
+                                                           "chempy.reactionsystem:ReactionSystem.identify_equilibria", "chempy.reactionsystem:ReactionSystem.as_substance_index"], kind="data")
+def _(v):
+    """queries the symbolic harnesses do not reach, on small systems written out by hand: grids of varied concentrations (axes in substance order,
+    whatever the order of the `varied` mapping), sums of systems with duplicates set aside, equality of systems, forward/backward pairs that differ
+    only in their inactive parts"""
+    import numpy as np
+    from chempy.chemistry import Reaction, Substance
+    from chempy.reactionsystem import ReactionSystem
+    rs = ReactionSystem([Reaction({"A": 1}, {"B": 1}, checks=())], [Substance(k) for k in ("C", "A", "B")], checks=())
+    base = {"A": 2.0, "B": 3.0, "C": 5.0}
+    arr, keys = rs.per_substance_varied(base, {"B": [30.0, 31.0], "C": [50.0, 51.0, 52.0]})      # mapping order B, C; substance order C, A, B
+    ok = keys == ("C", "B") and arr.shape == (3, 2, 3)
+    if ok:
+        for i, c in enumerate([50.0, 51.0, 52.0]):
+            for j, b in enumerate([30.0, 31.0]):
+                ok = ok and list(arr[i, j, :]) == [c, 2.0, b]
+    v.prove("grid_axes_follow_substance_order_each_point_is_the_base_with_its_levels", ok, detail="%r %r" % (keys, getattr(arr, "shape", None)))
+    arr1, keys1 = rs.per_substance_varied(base)
+    v.prove("nothing_varied", keys1 == () and list(arr1) == [5.0, 2.0, 3.0])
+    r1, r2, r3 = Reaction({"A": 1}, {"B": 1}, 1.0, checks=()), Reaction({"B": 1}, {"C": 1}, 2.0, checks=()), Reaction({"A": 1}, {"B": 1}, 9.0, checks=())
+    s1 = ReactionSystem([r1], [Substance(k) for k in "AB"], checks=())
+    s2 = ReactionSystem([r2, r3], [Substance(k) for k in "ABC"], checks=())
+    tot, dup = ReactionSystem.concatenate([s1, s2])
+    v.prove("sum_has_each_stoichiometry_once_duplicates_set_aside", [str(r) for r in tot.rxns] == ["A -> B; 1", "B -> C; 2"] and [str(r) for r in dup.rxns] == ["A -> B; 9"]
+            and set(tot.substances) == {"A", "B", "C"}, detail="%r %r" % ([str(r) for r in tot.rxns], [str(r) for r in dup.rxns]))
+    mk = lambda rxns, names: ReactionSystem(rxns, [Substance(k) for k in names], checks=())
+    a = mk([Reaction({"A": 1}, {"B": 1}, 1.0, checks=()), Reaction({"B": 1}, {"C": 2}, 2.0, checks=())], "ABC")
+    same = mk([Reaction({"A": 1}, {"B": 1}, 1.0, checks=()), Reaction({"B": 1}, {"C": 2}, 2.0, checks=())], "ABC")
+    v.prove("equal_content_distinct_objects", a == same)
+    differs = [mk([Reaction({"A": 1}, {"B": 1}, 1.0, checks=()), Reaction({"B": 1}, {"C": 3}, 2.0, checks=())], "ABC"),      # a coefficient
+               mk([Reaction({"B": 1}, {"C": 2}, 2.0, checks=()), Reaction({"A": 1}, {"B": 1}, 1.0, checks=())], "ABC"),      # reaction order
+               mk([Reaction({"A": 1}, {"B": 1}, 1.0, checks=())], "ABC"),                                                     # fewer reactions
+               mk([Reaction({"A": 1}, {"B": 1}, 1.0, checks=()), Reaction({"B": 1}, {"C": 2}, 2.0, checks=())], "ABCD")]      # another substance
+    v.prove("any_difference_makes_them_unequal", not any(a == d for d in differs))
+    fw = Reaction({"A": 1}, {"B": 1}, inact_reac={"S": 1}, checks=())
+    bw_swapped = Reaction({"B": 1}, {"A": 1}, inact_prod={"S": 1}, checks=())
+    bw_not = Reaction({"B": 1}, {"A": 1}, inact_reac={"S": 1}, checks=())
+    v.prove("reverse_pair_needs_the_inactive_parts_swapped_too", mk([fw, bw_swapped], "ABS").identify_equilibria() == [(0, 1)] and mk([fw, bw_not], "ABS").identify_equilibria() == [])
+    idx = [rs.as_substance_index(k) for k in ("C", "A", "B")]
+    v.prove("index_of_a_key_is_its_position", idx == [0, 1, 2])
